@@ -49,6 +49,7 @@ structure Case where
   num : Num
   T : TestFn
   G : GeoFn
+  nonfinite : Bool := false
 
 def parseCase (l : Line) : Case :=
   let nums : List (Str × Int × Option F64.Bits) := (splitD (l.getD "nums") ",").map fun e =>
@@ -77,6 +78,7 @@ def parseCase (l : Line) : Case :=
     cfgs := strList (l.getD "cfgs" "-")
     results := results
     num := num
+    nonfinite := nums.any (fun (_, _, p) => match p with | some b => !F64.isFinite b | none => false)
     T := fun o n => match tests.lookup (o.map F64.canonNaN, n.map F64.canonNaN) with
       | some r => r | none => .errOther "?no-test-data"
     G := fun ms => match geos.lookup (ms.map F64.canonNaN) with
@@ -158,7 +160,10 @@ def judge (id : String) (cs : Case) (goObs : List String) : IO Unit := do
     Spec.Legacy.judgeTables its (ims k) spec setting
   let strip (l : Line) : List String := l.words.filter fun w => !(w.startsWith "call=")
   let same := (call "1").map strip == (call "2").map strip
-  IO.println s!"spec {id} stats1={stats "1"} stats2={stats "2"} tabs1={tabs "1"} tabs2={tabs "2"} same={if same then 1 else 0}"
+  -- cases fed NaN / ±Inf measurement texts belong to the class N17nan (stats.MannWhitneyUTest does not
+  -- terminate on NaN; the legacy collection is shielded by the fence, see notes/C17.md)
+  let kf := if cs.nonfinite then " kf=N17nan" else ""
+  IO.println s!"spec {id} stats1={stats "1"} stats2={stats "2"} tabs1={tabs "1"} tabs2={tabs "2"} same={if same then 1 else 0}{kf}"
 
 partial def loop (h : IO.FS.Stream) (st : State) : IO Unit := do
   let line ← h.getLine
